@@ -769,6 +769,9 @@ func main() {
 	}
 	for _, k := range ks {
 		for d := -60; d <= 60; d++ {
+			if thorough && k >= 4 && !edge[d] { // the large sizes only around the changes of the fragment count
+				continue
+			}
 			if !thorough { // k = 1: every third d plus the edges (the band below covers F-52-4t .. F+1 densely)
 				switch {
 				case k == 1 && !edge[d] && d%3 != 0:
@@ -815,7 +818,7 @@ func main() {
 				h = plain("grid", n, orders[rng.Intn(3)])
 			}
 			hist(h)
-			if thorough && k <= 3 { // every order class for every size
+			if thorough && k <= 3 && edge[d] { // every order class around the changes of the fragment count
 				for _, o := range orders {
 					hist(plain("grid", n, o))
 				}
@@ -857,7 +860,7 @@ func main() {
 	// ---- random sizes and interleavings
 	nr, big := 16, 3
 	if thorough {
-		nr, big = 400, 5
+		nr, big = 200, 5
 	}
 	for i := 0; i < nr; i++ {
 		var n int
